@@ -7,6 +7,8 @@ pub mod runner;
 pub mod util;
 #[cfg(any(feature = "c01", feature = "c03", feature = "c05", feature = "c06", feature = "c07", feature = "c10", feature = "c11", feature = "c12", feature = "c13", feature = "c14", feature = "c16", feature = "c19"))]
 pub mod crkit;
+#[cfg(any(feature = "c01", feature = "c03", feature = "c05", feature = "c06", feature = "c07", feature = "c10"))]
+pub mod cluster;
 
 #[cfg(feature = "c01")]
 pub mod c01;
